@@ -29,7 +29,9 @@ def run(prop, tier, seed, ctx):
     texts = corpus_texts(seed, n)
     singles = shard_map("bind.verify", "text_chunk", [(t, (i % 3) * 4) for i, t in enumerate(texts)] +
                         # every fifth text once more, as another file of a multi-file submission
-                        [(t, (i % 3) * 4, "other") for i, t in enumerate(texts) if i % 5 == 0])
+                        [(t, (i % 3) * 4, "other") for i, t in enumerate(texts) if i % 5 == 0] +
+                        # ... and every fourth with the documented option enhance=False
+                        [(t, (i % 3) * 4, "native") for i, t in enumerate(texts) if i % 4 == 1])
     from bind.verify import PROLOGUES, SECTION_BODIES
     sect = shard_map("bind.verify", "section_chunk", [(p, b, k) for p in range(len(PROLOGUES)) for b in range(len(SECTION_BODIES)) for k in (1, 2)] +
                      [(p, b, k, "stop") for p in range(len(PROLOGUES)) for b in range(len(SECTION_BODIES)) for k in (1, 2)] +
